@@ -139,7 +139,8 @@ fn judge(raw: &RawKey, sc: &Scenario, x: &Exec<Vec<Outcome>>, read_data: bool, r
     let n = sc.name.split('/').next().unwrap_or("");
     match &x.end {
         RunEnd::Finished => {}
-        other => return Err((format!("C10/{n}/no-termination"), format!("{other:?}"))),
+        RunEnd::Deadlock(who) => return Err((format!("C10/{n}/deadlock"), format!("quiescent with nothing pending but {who:?} unfinished"))),
+        RunEnd::Hang(m) => return Err(("INCONCLUSIVE".into(), m.chars().take(80).collect())),
     }
     let env = Env::from_store(x.outcome[0].store.clone());
     let mut expect = sc.base.clone();
@@ -225,7 +226,11 @@ pub fn run(args: &Args, rep: &mut Report) {
         let x = run_gated(&raw, vec![sc.store.clone()], &prefix, true, sc.cmds.iter().map(make).collect(), same_command_first);
         rep.inc("executions");
         if let Err((sig, msg)) = judge(&raw, sc, &x, true, rep) {
-            rep.violation(sig, msg, c.clone());
+            if sig == "INCONCLUSIVE" {
+                rep.machinery(msg);
+            } else {
+                rep.violation(sig, msg, c.clone());
+            }
         }
         return;
     }
@@ -256,6 +261,10 @@ pub fn run(args: &Args, rep: &mut Report) {
                 }
                 match judge(&raw, sc, x, !quick, rep) {
                     Ok(()) => {}
+                    Err((sig, _)) if sig == "INCONCLUSIVE" => {
+                        rep.inc("inconclusive_executions");
+                        rep.cap("some executions did not reach quiescence within the time limit and were discarded");
+                    }
                     Err((sig, msg)) => {
                         if sc.control {
                             control_violations += 1;
